@@ -223,8 +223,8 @@ impl View {
 /// straddles every plausible byte offset counted from its end).
 pub fn path_name(p: usize) -> String {
     match p {
-        0 => "/sim/image-work.sodg".to_string(),
-        1 => "/sim/image-work.tmp".to_string(),
-        _ => "/sim/image-図aя図bя図cя図dя図eя図fя図gя図hя図iя図jя図kя図lяxy.sodg".to_string(),
+        0 => "image-work.sodg".to_string(),
+        1 => "image-work.tmp".to_string(),
+        _ => "image-図aя図bя図cя図dя図eя図fя図gя図hя図iя図jя図kя図lяxy.sodg".to_string(),
     }
 }
